@@ -17,6 +17,35 @@ def head(e):
     return e[0] if isinstance(e, list) and e and isinstance(e[0], str) else "?"
 
 
+def cval(e):
+    """value of a literal-only integer expression, None when it is not one (or fails)"""
+    if not isinstance(e, list) or not e:
+        return None
+    if e[0] == "lit":
+        return e[1] if isinstance(e[1], int) and not isinstance(e[1], bool) else None
+    if e[0] == "arith":
+        a, b = cval(e[2]), cval(e[3])
+        if a is None or b is None:
+            return None
+        if e[1] == "+":
+            return a + b
+        if e[1] == "-":
+            return a - b
+        if e[1] == "*":
+            return a * b
+        return None
+    return None
+
+
+def has_const_div0(e):
+    """some sub-expression divides by a literal-only expression whose value is 0"""
+    if not isinstance(e, list):
+        return False
+    if e and e[0] == "arith" and e[1] in ("/", "%") and cval(e[3]) == 0:
+        return True
+    return any(has_const_div0(x) for x in e)
+
+
 def classify(c):
     """stable key of a failing input: stream + the shape of the failure (no data values)"""
     why = c.get("why", "")
@@ -24,6 +53,8 @@ def classify(c):
         return "in-list:non-constant-element-frozen-into-static-filter"
     if "definitional rewriting" in why:
         return "%s:%s:differs-from-definition" % (c["stream"], head(c["expr"]))
+    if "no single row raises" in why and has_const_div0(c["expr"]):
+        return "case:constant-failing-branch-evaluated-on-empty-batch"
     if "panicked" in why or "panic" in why:
         kind = "panic"
     elif "no single row raises" in why:
